@@ -140,6 +140,7 @@ def build(run):
     crate4, lemmas4 = C12.kernel(run, "c08prefs")
     l4 = dict(lemmas4[0], id="K-C08-e.set_string_pref")
     lem["timeout"] = 900 if run.tier == "quick" else 3000
+    lem["deep"] = True          # ~410 s of solver time for this one harness: thorough tier only (as in C19)
     run.kani(crate3, [lem])
     run.kani(crate4, [l4], timeout=900)
 
